@@ -168,3 +168,57 @@ Theorem C08_ack_removal_finding :
   tag_section_present (send_loop_tags en (Some [(bs "k", bs "v")])) = negb ack_removal_aware.
 Proof. exact C08_ack_removal_finding_proof. Qed.
 Print Assumptions C08_ack_removal_finding.
+
+(* ---- rounds ----------------------------------------------------------------------
+   C08_req_safe speaks about the connection ("advertised earlier on this connection").  The
+   two theorems below speak about the ROUND a REQ belongs to. *)
+
+(* Every ACK that the client answers by CAP END or by AUTHENTICATE (i.e. every ACK that does
+   not end the connection) leaves tmpCap empty — on the SASL path too.  Any state. *)
+Theorem C08_ack_clears_tmp : forall ord cfg tls now st ps,
+  is_ack ps = true ->
+  let r := handle_cap ord cfg tls now st ps in
+  (snd r = [out_END] \/ exists mech, snd r = [out_AUTH mech]) ->
+  st_tmp (fst r) = [].
+Proof. exact C08_ack_clears_tmp_proof. Qed.
+Print Assumptions C08_ack_clears_tmp.
+
+(* On a connection that is still alive, every name on the wire of a CAP REQ is on offer
+   (Spec offered): listed by an LS/NEW line since the last line that concluded a round and
+   not withdrawn since.  What concludes a round / withdraws a name depends on
+   tmp_prune_aware: for the CURRENT code (false) only an ACK concludes a round — names
+   listed before a NAK, or deleted while pending, are still requested (finding
+   tmpcap-not-pruned, C08_tmpcap_prune_finding below); with the proposed fix (true) a NAK
+   concludes the round too and a DEL withdraws the name.  Proven for both values. *)
+Theorem C08_req_on_offer : forall cfg s0 h i toks name,
+  ord_sound (in_ord i) -> ord_complete (in_ord i) ->
+  alive cfg (cap_init s0) h ->
+  In (Write s_CAP [s_REQ; toks]) (snd (cap_step cfg (cap_after cfg (cap_init s0) h) i)) ->
+  In name (split_byte 32 toks) ->
+  In name (offered (h ++ [i])).
+Proof. exact C08_req_on_offer_proof. Qed.
+Print Assumptions C08_req_on_offer.
+
+Theorem C08_offered_advertised : forall h k, In k (offered h) -> advertised_in h k.
+Proof. exact C08_offered_advertised_proof. Qed.
+Print Assumptions C08_offered_advertised.
+
+(* The finding tmpcap-not-pruned, true of the current and of the repaired code:
+   LS :sasl message-tags / NAK / NEW :batch            => REQ contains batch, and sasl,
+                                                          message-tags iff tmpCap is not pruned;
+   LS * :multi-prefix batch / DEL :multi-prefix / LS :away-notify
+                                                       => REQ contains away-notify, batch, and
+                                                          multi-prefix iff tmpCap is not pruned. *)
+Theorem C08_tmpcap_prune_finding :
+  let r1 := req_names (snd (cap_step ex_cfg (cap_after ex_cfg (cap_init sts_init) ex_nak_h)
+                                     (ex_in [bs "me"; s_NEW; bs "batch"]))) in
+  let r2 := req_names (snd (cap_step ex_cfg (cap_after ex_cfg (cap_init sts_init) ex_del_h)
+                                     (ex_in [bs "*"; s_LS; bs "away-notify"]))) in
+  existsb (streqb (bs "batch")) r1 = true /\
+  existsb (streqb (bs "sasl")) r1 = negb tmp_prune_aware /\
+  existsb (streqb (bs "message-tags")) r1 = negb tmp_prune_aware /\
+  existsb (streqb (bs "away-notify")) r2 = true /\
+  existsb (streqb (bs "batch")) r2 = true /\
+  existsb (streqb (bs "multi-prefix")) r2 = negb tmp_prune_aware.
+Proof. exact C08_tmpcap_prune_finding_proof. Qed.
+Print Assumptions C08_tmpcap_prune_finding.
